@@ -77,6 +77,12 @@ MODULE = {
         # number of stored keys = what len() must report (the empty key counts)
         "card": (["s"], "cext(s.V, eps) + b2i(s.V[eps])"),
     },
+    "library": {
+        # stack traversals: not under a deductive contract (bounded in bcheck.c10); callers only learn the result type
+        "TrieDict.values": {"params": ["self"], "types": {"self": "Ref[TrieDict]"}, "returns": "Obj", "ensures": []},
+        "TrieDict.items": {"params": ["self"], "types": {"self": "Ref[TrieDict]"}, "returns": "Obj", "ensures": []},
+        "TrieDict.prefixes": {"params": ["self"], "types": {"self": "Ref[TrieDict]"}, "returns": "Obj", "ensures": []},
+    },
     "functions": {
         "TrieDict.__init__": {
             "types": COMMON_TYPES, "returns": "NoneType", "modifies": ["*"],
